@@ -37,13 +37,24 @@ var inGroup = func() map[uint32]bool {
 func (rt *Transfer) setUid(f *File, st fs.FileInfo) (fs.FileInfo, error) {
 	stt := st.Sys().(*syscall.Stat_t)
 
+	// Ids which the sender listed with a name are mapped to the local id of
+	// that name (rsync/uidlist.c:match_uid); all others are used as they are.
+	wantUid := uint32(f.Uid)
+	if m, ok := rt.Users[f.Uid]; ok {
+		wantUid = uint32(m.LocalId)
+	}
+	wantGid := uint32(f.Gid)
+	if m, ok := rt.Groups[f.Gid]; ok {
+		wantGid = uint32(m.LocalId)
+	}
+
 	changeUid := rt.Opts.PreserveUid &&
 		amRoot &&
-		stt.Uid != uint32(f.Uid)
+		stt.Uid != wantUid
 
 	changeGid := rt.Opts.PreserveGid &&
-		(amRoot || inGroup[uint32(f.Gid)]) &&
-		stt.Gid != uint32(f.Gid)
+		(amRoot || inGroup[wantGid]) &&
+		stt.Gid != wantGid
 
 	if !changeUid && !changeGid {
 		return st, nil
@@ -51,11 +62,11 @@ func (rt *Transfer) setUid(f *File, st fs.FileInfo) (fs.FileInfo, error) {
 
 	uid := stt.Uid
 	if changeUid {
-		uid = uint32(f.Uid)
+		uid = wantUid
 	}
 	gid := stt.Gid
 	if changeGid {
-		gid = uint32(f.Gid)
+		gid = wantGid
 	}
 	if err := rt.DestRoot.Lchown(f.Name, int(uid), int(gid)); err != nil {
 		return nil, err
